@@ -81,7 +81,14 @@ type trace struct {
 // element selection, loads, slices, conversions and phis. Local variables
 // spilled to an Alloc (captured parameters, address-taken locals) are followed
 // through their stores.
-func traceAddr(v ssa.Value) *trace {
+func traceAddr(v ssa.Value) *trace { return traceAddr1(v, false) }
+
+// traceValue is traceAddr for values being read: it also follows whole-object
+// copies into local aggregates (`e := slice[i]`), which must not be done for
+// store destinations (a local copy is private memory).
+func traceValue(v ssa.Value) *trace { return traceAddr1(v, true) }
+
+func traceAddr1(v ssa.Value, followCopies bool) *trace {
 	t := &trace{}
 	seen := map[ssa.Value]bool{}
 	var walk func(v ssa.Value, thr bool)
@@ -171,6 +178,21 @@ func traceAddr(v ssa.Value) *trace {
 				for _, e := range x.Edges {
 					walk(e, thr)
 				}
+				return
+			case *ssa.Alloc:
+				if followCopies && !isVarCell(x) {
+					n := 0
+					for _, ref := range *x.Referrers() {
+						if st, ok := ref.(*ssa.Store); ok && st.Addr == x {
+							n++
+							walk(st.Val, thr)
+						}
+					}
+					if n > 0 {
+						return
+					}
+				}
+				t.bases = append(t.bases, base{v, thr})
 				return
 			default:
 				t.bases = append(t.bases, base{v, thr})
